@@ -69,6 +69,16 @@ func c18x(c *ctx) {
 			meta.Samples = append(meta.Samples, rec)
 		}
 	}
+	// a panic inside the library while a reset object is used is an observation, not the end of the driver
+	guard := func(obj, hist, key string, body func()) {
+		defer func() {
+			if p := recover(); p != nil {
+				emit("panic:"+obj, hist, key, []string{fmt.Sprint("panic: ", p)}, []string{"no panic"}, nil)
+			}
+		}()
+		body()
+	}
+	_ = guard
 	tail := []byte{0, 0, 255, 255}
 	cat := func(a ...[]byte) []byte { return bytes.Join(a, nil) }
 	// ---------------- wsflate.Writer
@@ -151,8 +161,18 @@ func c18x(c *ctx) {
 						w.Flush()
 					}
 					rd := &bytes.Buffer{}
-					w.Reset(rd)
-					reused, d1, ferr := suffix(w, rd)
+					var reused []string
+					var d1 []byte
+					var ferr bool
+					paniced := true
+					guard("flatewriter", h, key, func() {
+						w.Reset(rd)
+						reused, d1, ferr = suffix(w, rd)
+						paniced = false
+					})
+					if paniced {
+						continue
+					}
 					fd := &bytes.Buffer{}
 					fresh, _, _ := suffix(mk(fd), fd)
 					ch := [][]int{}
@@ -199,8 +219,16 @@ func c18x(c *ctx) {
 					w.Write(bytes.Repeat([]byte("hello unflushed "), 300))
 				}
 				rd := &bytes.Buffer{}
-				w.Reset(rd)
-				reused := suffix(w, rd)
+				var reused []string
+				paniced := true
+				guard("flatereal", hist, key, func() {
+					w.Reset(rd)
+					reused = suffix(w, rd)
+					paniced = false
+				})
+				if paniced {
+					continue
+				}
 				fd := &bytes.Buffer{}
 				fresh := suffix(mk(fd), fd)
 				// reader side: a reader that has read an earlier message (or failed on garbage) reads this one
@@ -212,8 +240,17 @@ func c18x(c *ctx) {
 					r = mkr(bytes.NewReader(fd.Bytes()))
 				}
 				io.ReadAll(r)
-				r.Reset(bytes.NewReader(rd.Bytes()))
-				back, err := io.ReadAll(r)
+				var back []byte
+				var err error
+				paniced = true
+				guard("flatereal", hist, key, func() {
+					r.Reset(bytes.NewReader(rd.Bytes()))
+					back, err = io.ReadAll(r)
+					paniced = false
+				})
+				if paniced {
+					continue
+				}
 				reused = append(reused, fmt.Sprintf("read:%v:%x", err, back))
 				back, err = io.ReadAll(mkr(bytes.NewReader(fd.Bytes())))
 				fresh = append(fresh, fmt.Sprintf("read:%v:%x", err, back))
@@ -272,8 +309,17 @@ func c18x(c *ctx) {
 								io.ReadAll(r)
 							}
 							data := vh.PBytes(4, 0, srcLen)
-							r.Reset(mkSrc(data, sb))
-							reused, got := suffix(r)
+							var reused []string
+							var got []byte
+							paniced := true
+							guard("flatereader", h, key, func() {
+								r.Reset(mkSrc(data, sb))
+								reused, got = suffix(r)
+								paniced = false
+							})
+							if paniced {
+								continue
+							}
 							fresh, _ := suffix(mk(mkSrc(data, sb)))
 							emit("flatereader", h, key, reused, fresh, map[string]interface{}{"src": vh.Ints(data), "got": vh.Ints(got)})
 						}
@@ -284,10 +330,14 @@ func c18x(c *ctx) {
 	}
 	// ---------------- CipherReader / CipherWriter
 	m1, m2 := [4]byte{0xa1, 0xb2, 0xc3, 0xd4}, [4]byte{0x11, 0x22, 0x44, 0x88}
-	for k := 0; k <= 6; k++ {
+	for k := 0; k <= 13; k++ {
 		for plen := 0; plen <= 9; plen++ {
 			for _, piece := range []int{1, 3, 16} {
 				key := fmt.Sprintf("cipher/%d/%d/%d", k, plen, piece)
+				m1, m2 := m1, m2
+				if k >= 7 { // reset to the very same key (the position must start over all the same)
+					m1 = m2
+				}
 				if !vh.Only(key) {
 					continue
 				}
@@ -310,7 +360,7 @@ func c18x(c *ctx) {
 					return
 				}
 				cr := wsutil.NewCipherReader(bytes.NewReader(vh.PBytes(1, 0, 20)), m1)
-				io.ReadFull(cr, make([]byte, k))
+				io.ReadFull(cr, make([]byte, k%7))
 				cr.Reset(bytes.NewReader(data), m2)
 				reused, got := rsuffix(cr)
 				fresh, _ := rsuffix(wsutil.NewCipherReader(bytes.NewReader(data), m2))
@@ -328,7 +378,7 @@ func c18x(c *ctx) {
 					return
 				}
 				cw := wsutil.NewCipherWriter(&bytes.Buffer{}, m1)
-				cw.Write(make([]byte, k))
+				cw.Write(make([]byte, k%7))
 				rd := &bytes.Buffer{}
 				cw.Reset(rd, m2)
 				reused = wsuffix(cw, rd)
